@@ -4,6 +4,7 @@ import (
 	"go/ast"
 	"go/token"
 	"go/types"
+	"strings"
 )
 
 func init() {
@@ -50,6 +51,7 @@ func (c *Ctx) ruleTextEscapes(rule string) {
 			} else {
 				R.Unk(rule, fi.Key+" invalid UTF-8", P.Pos(sw), "cannot evaluate the switch conditions")
 			}
+			c.verbatimCopyBounded(rule, fi, sw, tp+"indexNeedEscapeInString", func(b int64) bool { return b == 0 || b == '\n' || b == '"' || b == '\'' || b == '\\' || b >= 0x80 }, true)
 			var esc *ast.SwitchStmt
 			walk(sw.Body, func(x ast.Node) bool {
 				if s, ok := x.(*ast.SwitchStmt); ok && s.Tag != nil && esc == nil {
@@ -116,6 +118,7 @@ func (c *Ctx) ruleTextEscapes(rule string) {
 		R.Unk(rule, fi.Key, P.Pos(fi.Decl), "no `switch r, n := utf8.DecodeRuneInString(in); {…}` found")
 		return
 	}
+	c.verbatimCopyBounded(rule, fi, sw, tp+"indexNeedEscapeInString", func(b int64) bool { return b < 0x20 || b == '"' || b == '\\' || b >= 0x7f }, true)
 	var asciiObj types.Object
 	for _, f := range fi.Decl.Type.Params.List {
 		for _, nm := range f.Names {
@@ -262,4 +265,104 @@ func (c *Ctx) ruleTextEscapes(rule string) {
 			R.Unk(rule, construct, P.Pos(sw), "cannot evaluate the switch conditions")
 		}
 	}
+}
+
+// verbatimCopyBounded: the clause that copies input verbatim extends the copy
+// only up to the next byte the stop-helper reports, and the helper stops at
+// every byte in mustStop.
+func (c *Ctx) verbatimCopyBounded(rule string, fi *FuncInfo, sw *ast.SwitchStmt, helperKey string, mustStop func(b int64) bool, byteWise bool) {
+	R, P := c.R, c.P
+	info := fi.Info()
+	var def *ast.CaseClause
+	for _, s := range sw.Body.List {
+		if cc := s.(*ast.CaseClause); cc.List == nil {
+			def = cc
+		}
+	}
+	construct := fi.Key + " verbatim copy"
+	if def == nil {
+		R.Unk(rule, construct, P.Pos(sw), "no default (verbatim copy) clause")
+		return
+	}
+	loops, helperCalls := 0, 0
+	var other []string
+	walk(def, func(n ast.Node) bool {
+		switch x := n.(type) {
+		case *ast.ForStmt, *ast.RangeStmt:
+			loops++
+		case *ast.CallExpr:
+			k := calleeKey(info, x)
+			switch {
+			case k == helperKey || strings.HasSuffix(k, "indexNeedEscapeInBytes") || strings.HasSuffix(k, "indexNeedEscapeInString"):
+				helperCalls++
+			case k == "" || k == "append":
+			default:
+				if id, ok := x.Fun.(*ast.Ident); ok && id.Name == "append" {
+					break
+				}
+				if tv, ok := info.Types[x.Fun]; ok && tv.IsType() {
+					break
+				}
+				other = append(other, k)
+			}
+		}
+		return true
+	})
+	R.Check(loops == 0 && helperCalls == 1 && len(other) == 0, rule, construct, P.Pos(def), "copy length = current rune + one stop-helper scan", "the verbatim-copy clause extends the copy by more than one scan of the stop helper (loops or extra calls: "+strings.Join(other, ",")+"): bytes that need escaping can be copied without being examined")
+	// the helper stops at every byte that must not be copied verbatim
+	hf := c.need(rule, helperKey)
+	if hf == nil {
+		return
+	}
+	hinfo := hf.Info()
+	var cond ast.Expr
+	var cObj types.Object
+	walk(hf.Decl.Body, func(n ast.Node) bool {
+		is, ok := n.(*ast.IfStmt)
+		if !ok || cond != nil {
+			return true
+		}
+		ret := false
+		walk(is.Body, func(m ast.Node) bool {
+			if _, ok := m.(*ast.ReturnStmt); ok {
+				ret = true
+			}
+			return true
+		})
+		if !ret {
+			return true
+		}
+		cond = is.Cond
+		if as, ok := is.Init.(*ast.AssignStmt); ok && len(as.Lhs) == 1 {
+			cObj = hinfo.Defs[as.Lhs[0].(*ast.Ident)]
+		}
+		return true
+	})
+	if cond == nil {
+		R.Unk(rule, helperKey, P.Pos(hf.Decl), "stop condition not found in the helper")
+		return
+	}
+	if cObj == nil {
+		// `for i, r := range s { if r … }`: the loop variable
+		walk(hf.Decl.Body, func(n ast.Node) bool {
+			if rs, ok := n.(*ast.RangeStmt); ok {
+				if id, ok := rs.Value.(*ast.Ident); ok {
+					cObj = hinfo.Defs[id]
+				}
+			}
+			return true
+		})
+	}
+	bad := ""
+	for b := int64(0); b < 256; b++ {
+		if !mustStop(b) {
+			continue
+		}
+		v, ok := evalBool(hinfo, cond, map[types.Object]int64{cObj: b})
+		if !ok || !v {
+			bad = "0x" + hex2(b)
+			break
+		}
+	}
+	R.Check(bad == "", rule, helperKey+" stop set", P.Pos(hf.Decl), "stops at every byte that must be examined", "the stop helper does not stop at byte "+bad+": that byte would be copied verbatim")
 }
